@@ -8,66 +8,85 @@ Section env_steps.
   Context (J : job) (E : env).
   Hypothesis wf_nout : ∀ t, is_task J t → 1 ≤ nout J t.
 
-  Lemma inv_finish s w t h :
+  Lemma pub_ds_snoc_pub l w d : pub_ds (l ++ [EPub w d]) = pub_ds l ++ [d].
+  Proof. by rewrite pub_ds_app. Qed.
+  Lemma pay_ds_snoc_pub l w d : pay_ds (l ++ [EPub w d]) = pay_ds l.
+  Proof. rewrite pay_ds_app. simpl. by rewrite app_nil_r. Qed.
+
+  (* the task held by w publishes its output d = (t, i); it finishes iff d is its last output *)
+  Lemma inv_pubstep s w t h (d : ds) :
     Inv J E s → wq s !! w = Some t → e_host E !! w = Some h →
-    set_Forall (λ d, (h, d) ∈ store s) (ins J t) →
-    set_Forall (λ d, (h, d) ∉ store s) (outs J t) →
-    Inv J E {| ctl := ctl s; store := store s ∪ set_map (λ d, (h, d)) (outs J t);
-               wq := delete w (wq s); xfers := xfers s; fetches := fetches s; purges := purges s;
-               pool := pool s ++ (EPub w <$> outs_list J t); dispatched := dispatched s;
-               finished := {[t]} ∪ finished s |}.
+    set_Forall (λ d', (h, d') ∈ store s) (ins J t) →
+    d ∈ outs J t → d ∉ published s →
+    set_Forall (λ d' : ds, d'.2 < d.2 → d' ∈ published s) (outs J t) →
+    (h, d) ∉ store s →
+    Inv J E {| ctl := ctl s; store := {[(h, d)]} ∪ store s;
+               wq := if bool_decide (d = last_out J t) then delete w (wq s) else wq s;
+               xfers := xfers s; fetches := fetches s; purges := purges s;
+               pool := pool s ++ [EPub w d]; dispatched := dispatched s;
+               finished := if bool_decide (d = last_out J t) then {[t]} ∪ finished s else finished s;
+               published := {[d]} ∪ published s |}.
   Proof.
-    intros Hinv Hwq Hh Hins Houts.
+    intros Hinv Hwq Hh Hins Hout Hnp Hprefix Hnst.
     destruct (i_wq _ _ _ Hinv _ _ Hwq) as (_ & Hong & Htask & Hnfin).
     destruct (i_ong _ _ _ Hinv _ _ Hong) as (Hncomp & Hnidle & Hdisp & _ & _).
-    assert (Hlast : last_out J t ∈ outs J t) by (apply last_out_in, wf_nout, Htask).
+    pose proof (outs_spec J t d) as Hos. apply Hos in Hout as Hd12. destruct Hd12 as [Hd1 Hd2].
+    destruct d as [dt i]. simpl in Hd1, Hd2. subst dt. simpl in Hprefix.
     assert (Huniq : ∀ w', wq s !! w' = Some t → w' = w).
     { intros w' Hw'. destruct (i_wq _ _ _ Hinv _ _ Hw') as (_ & Hong' & _).
       destruct (i_ong _ _ _ Hinv _ _ Hong') as (_ & _ & Hdisp' & _).
       eapply nodup_snd_inj; [apply (i_disp_nodup _ _ _ Hinv)|done|done]. }
+    match goal with |- context [@bool_decide ?P ?D] => remember (@bool_decide P D) as last eqn:Elast end.
+    assert (Hlast : last = true → (t, i) = last_out J t) by (intros ->; symmetry in Elast; by apply bool_decide_eq_true in Elast).
+    assert (Hnlast : (t, i) = last_out J t → last = true) by (intros ?; subst last; by apply bool_decide_eq_true_2).
+    clear Elast.
+    assert (Hwq' : ∀ w' t', (if last then delete w (wq s) else wq s) !! w' = Some t' → wq s !! w' = Some t' ∧ (last = true → w' ≠ w)).
+    { intros w' t' H. destruct last; [apply lookup_delete_Some in H as [? ?]; auto|auto]. }
+    assert (Hfin' : ∀ t', t' ∈ finished s → t' ∈ (if last then {[t]} ∪ finished s else finished s)) by (intros t' ?; destruct last; set_solver).
+    assert (Hstore' : ∀ x, x ∈ store s → x ∈ {[(h, (t, i))]} ∪ store s) by set_solver.
+    assert (Hpub' : ∀ x, x ∈ published s → x ∈ {[(t, i)]} ∪ published s) by set_solver.
     constructor; simpl.
     - (* i_idle *) intros w' Hw'. destruct (i_idle _ _ _ Hinv _ Hw') as (? & ? & Hn).
-      split; [done|]. split; [done|]. destruct (decide (w' = w)) as [->|?];
-        [by rewrite lookup_delete|by rewrite lookup_delete_ne].
-    - (* i_wq *) intros w' t' Hw'. apply lookup_delete_Some in Hw' as [Hne Hw'].
-      destruct (i_wq _ _ _ Hinv _ _ Hw') as (? & ? & ? & ?). repeat split; try done.
-      intros Hin. apply elem_of_union in Hin as [Hin|Hin]; [|done].
-      apply elem_of_singleton in Hin as ->. apply Hne; symmetry; by apply Huniq.
-    - (* i_wq_outs *) intros w' t' h' Hw' Hh' d Hd Hp. apply lookup_delete_Some in Hw' as [_ Hw'].
+      split; [done|]. split; [done|]. destruct last; simpl; [|done].
+      destruct (decide (w' = w)) as [->|?]; [by rewrite lookup_delete|by rewrite lookup_delete_ne].
+    - (* i_wq *) intros w' t' Hw'. apply Hwq' in Hw' as [Hw' Hl].
+      destruct (i_wq _ _ _ Hinv _ _ Hw') as (? & ? & ? & Hnf). repeat split; try done.
+      destruct last eqn:El; [|done]. intros Hin. apply elem_of_union in Hin as [Hin|Hin]; [|done].
+      apply elem_of_singleton in Hin as ->. apply (Hl eq_refl). by apply Huniq.
+    - (* i_wq_outs *) intros w' t' h' Hw' Hh' d' Hd' Hp. apply Hwq' in Hw' as [Hw' _].
       eapply (i_wq_outs _ _ _ Hinv); eauto.
     - (* i_ong *) intros w' t' Hong'. destruct (i_ong _ _ _ Hinv _ _ Hong') as (? & ? & ? & ? & Hcase).
       repeat split; try done. destruct Hcase as [Hc|[Hf Hp]].
-      + destruct (decide (w' = w)) as [->|Hne].
-        * assert (t' = t) as -> by congruence. right. split; [set_solver|].
-          apply elem_of_app. right. apply elem_of_list_fmap. exists (last_out J t).
-          split; [done|]. by apply outs_list_spec.
-        * left. by rewrite lookup_delete_ne.
-      + right. split; [set_solver|]. apply elem_of_app. by left.
-    - (* i_pub *) intros w' d Hin. apply elem_of_app in Hin as [Hin|Hin].
-      + destruct (i_pub _ _ _ Hinv _ _ Hin) as (? & ? & ? & ? & h' & ? & Hst).
-        repeat split; try done; [set_solver|]. exists h'. split; [done|]. intros Hp. set_solver.
-      + apply elem_of_list_fmap in Hin as (d' & [= -> ->] & Hd'). apply outs_list_spec in Hd'.
-        pose proof Hd' as Hd''. apply outs_spec in Hd'' as [Hd1 _].
-        destruct d' as [t0 i]. simpl in Hd1. subst t0. simpl.
-        split; [set_solver|]. split; [done|]. split; [done|]. split; [done|].
-        exists h. split; [done|]. intros _. apply elem_of_union. right. apply elem_of_map. by exists (t, i).
-    - (* i_pub_nodup *) rewrite pub_ds_app, pub_ds_pubs. apply NoDup_app. split; [apply (i_pub_nodup _ _ _ Hinv)|].
-      split; [|apply outs_list_nodup]. intros d Hd Hd'. apply elem_of_pub_ds in Hd as [w' Hw'].
-      destruct (i_pub _ _ _ Hinv _ _ Hw') as (Hf & _). apply outs_list_spec in Hd'. apply outs_spec in Hd' as [Hd1 _].
-      destruct d as [a b]; simpl in *; subst; done.
-    - (* i_xev *) intros h' d Hin. apply elem_of_app in Hin as [Hin|Hin].
-      + destruct (i_xev _ _ _ Hinv _ _ Hin) as [? Hst]. split; [set_solver|]. intros Hp. set_solver.
-      + apply elem_of_list_fmap in Hin as (? & ? & ?). done.
-    - (* i_store_fin *) intros h' d Hin. apply elem_of_union in Hin as [Hin|Hin].
-      + pose proof (i_store_fin _ _ _ Hinv _ _ Hin). set_solver.
-      + apply elem_of_map in Hin as (d' & [= -> ->] & Hd'). destruct d' as [a b].
-        apply outs_spec in Hd' as [Hd1 _]. simpl in *. subst. set_solver.
-    - (* i_store_h2d *) intros h' d Hin Hp. apply elem_of_union in Hin as [Hin|Hin].
+      + destruct last eqn:El.
+        * destruct (decide (w' = w)) as [->|Hne].
+          -- assert (t' = t) as -> by congruence. right. split; [set_solver|].
+             apply elem_of_app. right. apply elem_of_list_singleton. by rewrite <- (Hlast eq_refl).
+          -- left. by rewrite lookup_delete_ne.
+        * by left.
+      + right. split; [by apply Hfin'|]. apply elem_of_app. by left.
+    - (* i_pub *) intros w' d' Hin. apply elem_of_app in Hin as [Hin|Hin].
+      + destruct (i_pub _ _ _ Hinv _ _ Hin) as (? & ? & ? & Hl & h' & ? & Hst).
+        split; [by apply Hpub'|]. split; [done|]. split; [done|]. split.
+        * intros Heq. destruct (Hl Heq). split; [done|by apply Hfin'].
+        * exists h'. split; [done|]. intros Hp. by apply Hstore', Hst.
+      + apply elem_of_list_singleton in Hin as [= -> ->].
+        split; [set_solver|]. simpl. split; [done|]. split; [done|]. split.
+        * intros Heq. split; [done|]. rewrite (Hnlast Heq). set_solver.
+        * exists h. split; [done|]. intros _. set_solver.
+    - (* i_pub_nodup *) rewrite pub_ds_snoc_pub. apply NoDup_app. split; [apply (i_pub_nodup _ _ _ Hinv)|].
+      split; [|apply NoDup_singleton]. intros d' Hd' Hd''. apply elem_of_list_singleton in Hd'' as ->.
+      apply elem_of_pub_ds in Hd' as [w' Hw']. by destruct (i_pub _ _ _ Hinv _ _ Hw') as (? & _).
+    - (* i_xev *) intros h' d' Hin. apply elem_of_app in Hin as [Hin|Hin]; [|by apply elem_of_list_singleton in Hin].
+      destruct (i_xev _ _ _ Hinv _ _ Hin) as [? Hst]. split; [by apply Hpub'|]. intros Hp. by apply Hstore', Hst.
+    - (* i_store_pub *) intros h' d' Hin. apply elem_of_union in Hin as [Hin|Hin].
+      + apply elem_of_singleton in Hin as [= -> ->]. set_solver.
+      + apply Hpub'. by apply (i_store_pub _ _ _ Hinv h').
+    - (* i_store_h2d *) intros h' d' Hin Hp. apply elem_of_union in Hin as [Hin|Hin].
+      + apply elem_of_singleton in Hin as [= -> ->]. eapply (i_wq_outs _ _ _ Hinv); eauto.
       + by apply (i_store_h2d _ _ _ Hinv).
-      + apply elem_of_map in Hin as (d' & [= -> ->] & Hd'). eapply (i_wq_outs _ _ _ Hinv); eauto.
-    - (* i_avail_store *) intros d h' Hd Hp. pose proof (i_avail_store _ _ _ Hinv _ _ Hd Hp). set_solver.
+    - (* i_avail_store *) intros d' h' Hd' Hp. by apply Hstore', (i_avail_store _ _ _ Hinv).
     - apply (i_seen_avail _ _ _ Hinv).
-    - intros d Hd. pose proof (i_seen_fin _ _ _ Hinv _ Hd). set_solver.
+    - intros d' Hd'. by apply Hpub', (i_seen_pub _ _ _ Hinv).
     - apply (i_purges _ _ _ Hinv).
     - apply (i_pq _ _ _ Hinv).
     - apply (i_ptr _ _ _ Hinv).
@@ -75,48 +94,73 @@ Section env_steps.
     - apply (i_tr _ _ _ Hinv).
     - apply (i_disp _ _ _ Hinv).
     - apply (i_disp_nodup _ _ _ Hinv).
-    - intros t' Ht'. destruct (i_completed _ _ _ Hinv _ Ht') as [? ?]. split; [set_solver|done].
-    - (* i_fin_disp *) intros t' Ht'. apply elem_of_union in Ht' as [Ht'|Ht'].
-      + apply elem_of_singleton in Ht' as ->. split.
-        * apply elem_of_list_fmap. by exists (w, t).
-        * intros w' Hw'. apply lookup_delete_Some in Hw' as [Hne Hw']. apply Hne; symmetry; by apply Huniq.
-      + destruct (i_fin_disp _ _ _ Hinv _ Ht') as [? Hn]. split; [done|].
-        intros w' Hw'. apply lookup_delete_Some in Hw' as [_ Hw']. by eapply Hn.
-    - (* i_prep *) intros d h' Hs Hp. destruct (i_prep _ _ _ Hinv _ _ Hs Hp) as [Hst|[Hx|(w' & Hw' & Hh' & Hd)]].
-      + left. set_solver.
+    - intros t' Ht'. destruct (i_completed _ _ _ Hinv _ Ht') as [? ?]. split; [by apply Hfin'|done].
+    - (* i_fin_disp *) intros t' Ht'.
+      assert (t' ∈ finished s ∨ (last = true ∧ t' = t)) as [Hold|[El ->]] by (destruct last; set_solver).
+      + destruct (i_fin_disp _ _ _ Hinv _ Hold) as [? Hn]. split; [done|].
+        intros w' Hw'. apply Hwq' in Hw' as [Hw' _]. by eapply Hn.
+      + split; [apply elem_of_list_fmap; by exists (w, t)|].
+        intros w' Hw'. apply Hwq' in Hw' as [Hw' Hl]. apply (Hl El). by apply Huniq.
+    - (* i_prep *) intros d' h' Hs Hp. destruct (i_prep _ _ _ Hinv _ _ Hs Hp) as [Hst|[Hx|(w' & Hw' & Hh' & Hd' & Hnp')]].
+      + left. by apply Hstore'.
       + right. by left.
-      + destruct (decide (w' = w)) as [->|Hne].
-        * left. assert (d.1 = t) as Hd1 by congruence. assert (h' = h) as -> by congruence.
-          apply elem_of_union. right. apply elem_of_map. exists d. split; [done|]. by rewrite <- Hd1.
-        * right. right. exists w'. by rewrite lookup_delete_ne.
-    - (* i_xfer *) intros d src tgt Hx. destruct (i_xfer _ _ _ Hinv _ _ _ Hx) as (Hp & Hq & Hsrc & Htgt & Hns & w' & t' & Hw' & Hh' & Hd).
+      + destruct (decide (d' = (t, i))) as [->|Hne].
+        * left. assert (w' = w) as -> by (by apply Huniq). assert (h' = h) as -> by congruence. set_solver.
+        * right. right. exists w'. split.
+          -- destruct last eqn:El; [|done]. rewrite lookup_delete_ne; [done|]. intros <-.
+             (* w finishes t with (t, i) = last_out; d' is another unpublished output of t: impossible *)
+             assert (d'.1 = t) as Hd1' by congruence. pose proof (Hlast eq_refl) as Elo.
+             apply outs_spec in Hd' as [_ Hlt]. rewrite Hd1' in Hlt.
+             apply Hnp'. apply Hprefix; [apply outs_spec; by rewrite Hd1'|].
+             unfold last_out in Elo. injection Elo as Ei. destruct d' as [a b]. simpl in *. subst a.
+             assert (b ≠ i) by (intros ->; by apply Hne). lia.
+          -- split; [done|]. split; [done|]. set_solver.
+    - (* i_xfer *) intros d' src tgt Hx. destruct (i_xfer _ _ _ Hinv _ _ _ Hx) as (Hp & Hq & Hsrc & Htgt & Hns & w' & t' & Hw' & Hh' & Hd').
       repeat split; try done.
-      + intros Hin. apply elem_of_union in Hin as [Hin|Hin]; [done|].
-        apply elem_of_map in Hin as (d' & [= -> ->] & Hd'). apply outs_spec in Hd' as [Hd1 _].
-        pose proof (i_avail_store _ _ _ Hinv _ _ Hsrc Hp) as Hst.
-        pose proof (i_store_fin _ _ _ Hinv _ _ Hst) as Hf. destruct d' as [a b]; simpl in *; subst; done.
-      + exists w', t'. destruct (decide (w' = w)) as [->|Hne].
-        * exfalso. assert (t' = t) as -> by congruence. assert (tgt = h) as -> by congruence.
-          apply Hns. by apply Hins.
-        * by rewrite lookup_delete_ne.
+      + intros Hin. apply elem_of_union in Hin as [Hin|Hin]; [|done].
+        apply elem_of_singleton in Hin as [= -> ->].
+        pose proof (i_avail_store _ _ _ Hinv _ _ Hsrc Hp) as Hst. by apply Hnp, (i_store_pub _ _ _ Hinv src).
+      + exists w', t'. split; [|done]. destruct last eqn:El; [|done].
+        rewrite lookup_delete_ne; [done|]. intros <-. assert (t' = t) as -> by congruence. assert (tgt = h) as -> by congruence.
+        apply Hns. by apply Hins.
     - apply (i_xfer_nodup _ _ _ Hinv).
-    - (* i_inputs *) intros w' t' h' Hw' Hh' d Hd. apply lookup_delete_Some in Hw' as [_ Hw'].
-      destruct (i_inputs _ _ _ Hinv _ _ _ Hw' Hh' _ Hd) as [?|?]; [left; set_solver|by right].
+    - (* i_inputs *) intros w' t' h' Hw' Hh' d' Hd'. apply Hwq' in Hw' as [Hw' _].
+      destruct (i_inputs _ _ _ Hinv _ _ _ Hw' Hh' _ Hd') as [?|?]; [left; by apply Hstore'|by right].
     - apply (i_fq _ _ _ Hinv).
-    - intros d src Hf. destruct (i_fetch _ _ _ Hinv _ _ Hf) as (? & ? & ? & ? & Hn). repeat split; try done.
-      by rewrite pay_ds_app, pay_ds_pubs, app_nil_r.
+    - intros d' src Hf. destruct (i_fetch _ _ _ Hinv _ _ Hf) as (? & ? & ? & ? & Hn). repeat split; try done.
+      by rewrite pay_ds_snoc_pub.
     - apply (i_fetch_nodup _ _ _ Hinv).
-    - intros d v Hin. apply elem_of_app in Hin as [Hin|Hin]; [by apply (i_pay _ _ _ Hinv)|].
-      apply elem_of_list_fmap in Hin as (? & ? & ?). done.
-    - rewrite pay_ds_app, pay_ds_pubs, app_nil_r. apply (i_pay_nodup _ _ _ Hinv).
-    - intros d v Ho. destruct (i_out _ _ _ Hinv _ _ Ho) as (? & ? & ? & ? & ?). repeat split; try done.
-      by rewrite pay_ds_app, pay_ds_pubs, app_nil_r.
+    - intros d' v Hin. apply elem_of_app in Hin as [Hin|Hin]; [by apply (i_pay _ _ _ Hinv)|by apply elem_of_list_singleton in Hin].
+    - rewrite pay_ds_snoc_pub. apply (i_pay_nodup _ _ _ Hinv).
+    - intros d' v Ho. destruct (i_out _ _ _ Hinv _ _ Ho) as (? & ? & ? & ? & ?). repeat split; try done.
+      by rewrite pay_ds_snoc_pub.
     - apply (i_phase _ _ _ Hinv).
-    - intros t' d Ht' Hd. rewrite pub_ds_app, pub_ds_pubs. apply elem_of_union in Ht' as [Ht'|Ht'].
-      + apply elem_of_singleton in Ht' as ->. right. apply elem_of_app. right. by apply outs_list_spec.
-      + destruct (i_fin_ev _ _ _ Hinv _ _ Ht' Hd) as [?|?]; [by left|right; apply elem_of_app; by left].
+    - (* i_pub_ev *) intros d' Hd'. rewrite pub_ds_snoc_pub. apply elem_of_union in Hd' as [Hd'|Hd'].
+      + apply elem_of_singleton in Hd' as ->. right. apply elem_of_app. right. by apply elem_of_list_singleton.
+      + destruct (i_pub_ev _ _ _ Hinv _ Hd') as [?|?]; [by left|right; apply elem_of_app; by left].
+    - (* i_fin_pub *) intros t' Ht'.
+      assert (t' ∈ finished s ∨ (last = true ∧ t' = t)) as [Hold|[El ->]] by (destruct last; set_solver).
+      + intros x Hx. by apply Hpub', (i_fin_pub _ _ _ Hinv t').
+      + pose proof (Hlast El) as Elo. intros x Hx. destruct (decide (x = (t, i))) as [->|Hne]; [set_solver|].
+        apply Hpub', Hprefix; [done|]. apply outs_spec in Hx as [Hx1 Hx2].
+        unfold last_out in Elo. injection Elo as Ei. destruct x as [a b]. simpl in *. subst a.
+        assert (b ≠ i) by (intros ->; by apply Hne). lia.
+    - (* i_published *) intros d' Hd'. apply elem_of_union in Hd' as [Hd'|Hd'].
+      + apply elem_of_singleton in Hd' as ->. simpl. split; [done|]. split; [done|].
+        destruct last eqn:El; simpl; [left; set_solver|right; eauto].
+      + destruct (i_published _ _ _ Hinv _ Hd') as (? & ? & Hcase). split; [done|]. split; [done|].
+        destruct Hcase as [Hf|[w' Hw']].
+        * left. by apply Hfin'.
+        * destruct last eqn:El; simpl; [|right; eauto]. destruct (decide (w' = w)) as [->|Hne].
+          -- left. assert (d'.1 = t) as -> by congruence. set_solver.
+          -- right. exists w'. by rewrite lookup_delete_ne.
+    - (* i_running *) intros w' t' Hw'. apply Hwq' in Hw' as [Hw' Hl]. intros Hin.
+      apply elem_of_union in Hin as [Hin|Hin]; [|by apply (i_running _ _ _ Hinv _ _ Hw')].
+      apply elem_of_singleton in Hin. unfold last_out in Hin. injection Hin as Ht Hi. subst t'.
+      assert (w' = w) as -> by (by apply Huniq).
+      apply (Hl (Hnlast ltac:(unfold last_out; by rewrite Hi)) eq_refl).
     - apply (i_seen_ext _ _ _ Hinv).
-    - intros d Hd. rewrite pay_ds_app, pay_ds_pubs, app_nil_r. by apply (i_fetched _ _ _ Hinv).
+    - intros d' Hd'. rewrite pay_ds_snoc_pub. by apply (i_fetched _ _ _ Hinv).
   Qed.
 
   Lemma pub_ds_snoc_x l h d : pub_ds (l ++ [EXfer h d]) = pub_ds l.
@@ -143,7 +187,7 @@ Section env_steps.
     Inv J E s → list_remove (d0, src, tgt) (xfers s) = Some xs → (src, d0) ∈ store s →
     Inv J E {| ctl := ctl s; store := {[(tgt, d0)]} ∪ store s; wq := wq s; xfers := xs;
                fetches := fetches s; purges := purges s; pool := pool s ++ [EXfer tgt d0];
-               dispatched := dispatched s; finished := finished s |}.
+               dispatched := dispatched s; finished := finished s; published := published s |}.
   Proof.
     intros Hinv Hrm Hsrc.
     pose proof (list_remove_in _ _ _ Hrm) as Hx.
@@ -158,19 +202,20 @@ Section env_steps.
     - intros w t Ho. destruct (i_ong _ _ _ Hinv _ _ Ho) as (? & ? & ? & ? & [?|[? ?]]); repeat split; auto.
       right. split; [done|]. apply elem_of_app. by left.
     - intros w d Hin. apply elem_of_app in Hin as [Hin|Hin]; [|by apply elem_of_list_singleton in Hin].
-      destruct (i_pub _ _ _ Hinv _ _ Hin) as (? & ? & ? & ? & h' & ? & Hst). repeat split; try done.
+      destruct (i_pub _ _ _ Hinv _ _ Hin) as (? & ? & ? & ? & h' & ? & Hst).
+      split; [done|]. split; [done|]. split; [done|]. split; [done|].
       exists h'. split; [done|]. intros Hp. set_solver.
     - rewrite pub_ds_snoc_x. apply (i_pub_nodup _ _ _ Hinv).
     - intros h d Hin. apply elem_of_app in Hin as [Hin|Hin].
       + destruct (i_xev _ _ _ Hinv _ _ Hin) as [? Hst]. split; [done|]. intros Hp. set_solver.
-      + apply elem_of_list_singleton in Hin as [= -> ->]. split; [by apply (i_store_fin _ _ _ Hinv src)|set_solver].
-    - intros h d Hin. apply elem_of_union in Hin as [Hin|Hin]; [|by apply (i_store_fin _ _ _ Hinv h)].
-      apply elem_of_singleton in Hin as [= -> ->]. by apply (i_store_fin _ _ _ Hinv src).
+      + apply elem_of_list_singleton in Hin as [= -> ->]. split; [by apply (i_store_pub _ _ _ Hinv src)|set_solver].
+    - intros h d Hin. apply elem_of_union in Hin as [Hin|Hin]; [|by apply (i_store_pub _ _ _ Hinv h)].
+      apply elem_of_singleton in Hin as [= -> ->]. by apply (i_store_pub _ _ _ Hinv src).
     - intros h d Hin Hp. apply elem_of_union in Hin as [Hin|Hin]; [|by apply (i_store_h2d _ _ _ Hinv)].
       apply elem_of_singleton in Hin as [= -> ->]. done.
     - intros d h Hd Hp. pose proof (i_avail_store _ _ _ Hinv _ _ Hd Hp). set_solver.
     - apply (i_seen_avail _ _ _ Hinv).
-    - apply (i_seen_fin _ _ _ Hinv).
+    - apply (i_seen_pub _ _ _ Hinv).
     - apply (i_purges _ _ _ Hinv).
     - apply (i_pq _ _ _ Hinv).
     - apply (i_ptr _ _ _ Hinv).
@@ -200,7 +245,10 @@ Section env_steps.
     - rewrite pay_ds_snoc_x. apply (i_pay_nodup _ _ _ Hinv).
     - intros d v Ho. rewrite pay_ds_snoc_x. by apply (i_out _ _ _ Hinv).
     - apply (i_phase _ _ _ Hinv).
-    - intros t d Ht Hd. rewrite pub_ds_snoc_x. by apply (i_fin_ev _ _ _ Hinv t).
+    - intros d Hd. rewrite pub_ds_snoc_x. by apply (i_pub_ev _ _ _ Hinv).
+    - apply (i_fin_pub _ _ _ Hinv).
+    - apply (i_published _ _ _ Hinv).
+    - apply (i_running _ _ _ Hinv).
     - apply (i_seen_ext _ _ _ Hinv).
     - intros d Hd. rewrite pay_ds_snoc_x. by apply (i_fetched _ _ _ Hinv).
   Qed.
@@ -209,7 +257,7 @@ Section env_steps.
     Inv J E s → list_remove (d0, src) (fetches s) = Some fs →
     Inv J E {| ctl := ctl s; store := store s; wq := wq s; xfers := xfers s; fetches := fs;
                purges := purges s; pool := pool s ++ [EPay d0 (if bool_decide (d0 ∈ j_none J) then None else Some d0)];
-               dispatched := dispatched s; finished := finished s |}.
+               dispatched := dispatched s; finished := finished s; published := published s |}.
   Proof.
     intros Hinv Hrm.
     pose proof (list_remove_in _ _ _ Hrm) as Hx.
@@ -228,11 +276,11 @@ Section env_steps.
     - rewrite pub_ds_snoc_p. apply (i_pub_nodup _ _ _ Hinv).
     - intros h d Hin. apply elem_of_app in Hin as [Hin|Hin]; [|by apply elem_of_list_singleton in Hin].
       by apply (i_xev _ _ _ Hinv).
-    - apply (i_store_fin _ _ _ Hinv).
+    - apply (i_store_pub _ _ _ Hinv).
     - apply (i_store_h2d _ _ _ Hinv).
     - apply (i_avail_store _ _ _ Hinv).
     - apply (i_seen_avail _ _ _ Hinv).
-    - apply (i_seen_fin _ _ _ Hinv).
+    - apply (i_seen_pub _ _ _ Hinv).
     - apply (i_purges _ _ _ Hinv).
     - apply (i_pq _ _ _ Hinv).
     - apply (i_ptr _ _ _ Hinv).
@@ -260,7 +308,10 @@ Section env_steps.
       + rewrite pay_ds_snoc_p. intros Hin. apply elem_of_app in Hin as [Hin|Hin]; [done|].
         apply elem_of_list_singleton in Hin as ->. congruence.
     - apply (i_phase _ _ _ Hinv).
-    - intros t d Ht Hd. rewrite pub_ds_snoc_p. by apply (i_fin_ev _ _ _ Hinv t).
+    - intros d Hd. rewrite pub_ds_snoc_p. by apply (i_pub_ev _ _ _ Hinv).
+    - apply (i_fin_pub _ _ _ Hinv).
+    - apply (i_published _ _ _ Hinv).
+    - apply (i_running _ _ _ Hinv).
     - apply (i_seen_ext _ _ _ Hinv).
     - intros d Hd. rewrite pay_ds_snoc_p. destruct (i_fetched _ _ _ Hinv _ Hd) as [Hf|[?|?]].
       + apply elem_of_list_fmap in Hf as ([d1 s1] & -> & Hf). simpl. rewrite (list_remove_elem _ _ _ _ Hrm) in Hf.
@@ -275,7 +326,7 @@ Section env_steps.
     Inv J E s → list_remove (h0, d0) (purges s) = Some ps →
     Inv J E {| ctl := ctl s; store := store s ∖ {[(h0, d0)]}; wq := wq s; xfers := xfers s;
                fetches := fetches s; purges := ps; pool := pool s; dispatched := dispatched s;
-               finished := finished s |}.
+               finished := finished s; published := published s |}.
   Proof.
     intros Hinv Hrm.
     pose proof (list_remove_in _ _ _ Hrm) as Hx.
@@ -288,15 +339,16 @@ Section env_steps.
     - apply (i_wq _ _ _ Hinv).
     - apply (i_wq_outs _ _ _ Hinv).
     - apply (i_ong _ _ _ Hinv).
-    - intros w d Hin. destruct (i_pub _ _ _ Hinv _ _ Hin) as (? & ? & ? & ? & h' & ? & Hst). repeat split; try done.
+    - intros w d Hin. destruct (i_pub _ _ _ Hinv _ _ Hin) as (? & ? & ? & ? & h' & ? & Hst).
+      split; [done|]. split; [done|]. split; [done|]. split; [done|].
       exists h'. split; [done|]. intros Hp. by apply Hkeep, Hst.
     - apply (i_pub_nodup _ _ _ Hinv).
     - intros h d Hin. destruct (i_xev _ _ _ Hinv _ _ Hin) as [? Hst]. split; [done|]. intros Hp. by apply Hkeep, Hst.
-    - intros h d Hin. apply elem_of_difference in Hin as [Hin _]. by apply (i_store_fin _ _ _ Hinv h).
+    - intros h d Hin. apply elem_of_difference in Hin as [Hin _]. by apply (i_store_pub _ _ _ Hinv h).
     - intros h d Hin. apply elem_of_difference in Hin as [Hin _]. by apply (i_store_h2d _ _ _ Hinv).
     - intros d h Hd Hp. apply Hkeep; [done|]. by apply (i_avail_store _ _ _ Hinv).
     - apply (i_seen_avail _ _ _ Hinv).
-    - apply (i_seen_fin _ _ _ Hinv).
+    - apply (i_seen_pub _ _ _ Hinv).
     - intros h d Hin. by apply (i_purges _ _ _ Hinv h), Hsub.
     - apply (i_pq _ _ _ Hinv).
     - apply (i_ptr _ _ _ Hinv).
@@ -320,7 +372,10 @@ Section env_steps.
     - apply (i_pay_nodup _ _ _ Hinv).
     - apply (i_out _ _ _ Hinv).
     - apply (i_phase _ _ _ Hinv).
-    - apply (i_fin_ev _ _ _ Hinv).
+    - apply (i_pub_ev _ _ _ Hinv).
+    - apply (i_fin_pub _ _ _ Hinv).
+    - apply (i_published _ _ _ Hinv).
+    - apply (i_running _ _ _ Hinv).
     - apply (i_seen_ext _ _ _ Hinv).
     - apply (i_fetched _ _ _ Hinv).
   Qed.
